@@ -163,6 +163,7 @@ func Run(c *corr.Ctx) {
 	if c.Want("C03") || c.Want("C06") {
 		sweeps(c)
 		oversizeFieldCases(c)
+		longRuns(c)
 	}
 	if c.Want("C08") {
 		adtsCases(c, c.N(60, 3000))
